@@ -24,7 +24,6 @@ import impl
 import pipeline
 
 SILENCED_VALUE = {"PREPROC_CONSTANT"}                      # what the property calls the #define-value diagnostics
-F_SILENCES_MORE = "C16-R-checkdefine-silences-more"
 
 DIAG_RE = re.compile(r"^(Error|Notice): (.{20,}?) \(line: *(\d+), col: *(\d+)\):\t(.*)$")
 VERDICT_RE = re.compile(r"^(.*): (OK|Error)!$")
@@ -259,7 +258,7 @@ def judge(name, src, cls, base, results):
     """evaluate the property on the parsed outputs.  -> (problems, stats)"""
     problems = []
     stats = {"compared": 0, "nontrivial": 0, "excluded_no_verdict": 0, "fatal_debug0_verdict_debug": 0, "skip_runs": 0,
-             "inline_runs": 0, "known_more": 0, "timeouts": 0}
+             "inline_runs": 0, "timeouts": 0}
     # reference: the baseline when it reached a verdict, otherwise the first path-mode, non-skip run that did
     ref = base if base["kind"] == "verdict" else None
     ref_o = BASE
@@ -319,8 +318,7 @@ def judge(name, src, cls, base, results):
             kept_value = [x for x in got if x[1] in SILENCED_VALUE]
             if not added and not kept_value and more and all(x[1] in ("MACRO_NAME_CAPITAL", "MACRO_FUNC_FORBIDDEN") for x in more) \
                     and len(got) + len(removed) == len(want) and r["verdict"] == status_of(got):
-                stats["known_more"] += 1
-                problems.append(("R-checkdefine-silences-more", dict(data, silenced_beyond_define_value=more), F_SILENCES_MORE))
+                problems.append(("R-checkdefine-silences-more", dict(data, silenced_beyond_define_value=more), None))
                 continue
             problems.append(("R-checkdefine-changes-other-diagnostics" if o["mode"] == "path" else "inline-differs-from-file",
                              dict(data, removed=removed, added=added, with_R_checkdefine=True), None))
@@ -693,7 +691,7 @@ def run(run, tier, seed, replay=None):
         shutil.rmtree(workdir, ignore_errors=True)
     common.broken_obligations(run, b, found)
     disc = sum(1 for t in b.theorems if t not in b.open_assumptions) if b.make_ok else 0
-    return run.finish(max(len(b.theorems), 22), disc,
+    return run.finish(max(len(b.theorems), 23), disc,
                       "files: conforming programs of family G, violating-but-analysable token edits of them, three files with the "
                       "#define forms, files whose analysis meets unrecognised tokens / the two debug-guarded raises, CRLF / CR / non-ASCII "
                       "contents; option sets: quick = every option alone + random combinations (36 per file, 60 for the #define files), "
